@@ -54,7 +54,23 @@ type outcome struct {
 	Seqs    []any
 }
 
-func runOne(c *core.Ctx, name string, wl sx.Workload, keep int, seed int64, settle bool, pause time.Duration) (*outcome, error) {
+func runOne(c *core.Ctx, name string, wl sx.Workload, keep int, seed int64, settle bool, pause time.Duration, reopen bool) (*outcome, error) {
+	return runHistory(c, name, wl, keep, seed, settle, pause, reopen, 0)
+}
+
+// runHistory executes one history, lists the rollback points of the closed index
+// and rolls a copy back to each of them.  directed = the "in-memory merge
+// overtaken by a batch" schedule (ScorchDisk: PMMWrite, IntroSegment, PMMIntro,
+// PMMCommit): the persister is parked until two unpersisted segments exist, its
+// in-memory merge is parked before the introduction until one more batch was
+// introduced; the snapshot it then records under the OLD epoch must carry the
+// old internal values.
+//
+// directedMode 2 = "the newest segment dropped out of the root before a restart":
+// no merges, every batch persisted; a retained rollback point names a file whose
+// id is larger than every id of the root the restarted index loads.
+func runHistory(c *core.Ctx, name string, wl sx.Workload, keep int, seed int64, settle bool, pause time.Duration, reopen bool, directedMode int) (*outcome, error) {
+	directed := directedMode == 1
 	base := c.TempDir("c13")
 	defer os.RemoveAll(base)
 	dir := filepath.Join(base, "idx")
@@ -65,8 +81,15 @@ func runOne(c *core.Ctx, name string, wl sx.Workload, keep int, seed int64, sett
 	rng := rand.New(rand.NewSource(seed))
 	r.Think = 2 * time.Millisecond
 	r.SetHolds(sx.DefaultHolds) // e.g. a batch introduced while the persister's in-memory merge is in flight
+	if directed {
+		r.Quiesce(20 * time.Second)
+		r.SetHolds([]sx.HoldRule{
+			{Point: "persist.loop", Until: "IntroSegment", Count: 1, Timeout: 10 * time.Second, Prob: 1, Once: true},
+			{Point: "memmerge.beforeIntro", Until: "IntroSegment", Count: 1, Timeout: 10 * time.Second, Prob: 1, Once: true},
+		})
+	}
 	reopenAt := -1
-	if seed%3 == 1 {
+	if reopen {
 		reopenAt = len(wl.Batches) / 2 // a restart in the middle of the history
 	}
 	// single writer here: batches in order, with occasional settling so that
@@ -82,6 +105,21 @@ func runOne(c *core.Ctx, name string, wl sx.Workload, keep int, seed int64, sett
 		if _, err := r.Submit(bs); err != nil {
 			_ = r.Close()
 			return nil, err
+		}
+		if directedMode == 2 {
+			r.Quiesce(20 * time.Second)
+			continue
+		}
+		if directed {
+			// batches 1,2: the parked persister lets both pile up; batch 3 is submitted
+			// once the in-memory merge waits before its introduction
+			if bi == 1 {
+				r.WaitParked("memmerge.beforeIntro", 1, 10*time.Second)
+			}
+			if bi >= 2 {
+				r.Quiesce(20 * time.Second)
+			}
+			continue
 		}
 		switch rng.Intn(4) {
 		case 0:
@@ -190,12 +228,63 @@ func run(c *core.Ctx) error {
 			pause = 20 * time.Millisecond
 		}
 		wl := sx.RandomWorkload(rng, c.Pick(10, 20), 1, safe, kv)
-		name := fmt.Sprintf("history-%d(keep=%d,safe=%v,settle=%v,sampling=%v)", i, keep, safe, settle, pause > 0)
-		o, err := runOne(c, name, wl, keep, c.Seed*100+int64(i), settle, pause)
+		reopen := i%3 == 2 // a restart in the middle (keep = 3 or 6 there: older snapshots are inherited)
+		wipe := i%4 == 1 || i%6 == 2
+		if wipe {
+			// batches that delete everything: whole segments (also the newest ones) drop out of
+			// the root while retained rollback points still name their files
+			for _, k := range []int{len(wl.Batches) / 3, len(wl.Batches)/2 - 1, len(wl.Batches) - 3} {
+				if k >= 0 && k < len(wl.Batches) {
+					wl.Batches[k].Puts = []string{}
+					wl.Batches[k].Dels = []string{"a", "b", "c", "d"}
+				}
+			}
+		}
+		name := fmt.Sprintf("history-%d(keep=%d,safe=%v,settle=%v,sampling=%v,reopen=%v,wipe=%v)", i, keep, safe, settle, pause > 0, reopen, wipe)
+		o, err := runOne(c, name, wl, keep, c.Seed*100+int64(i), settle, pause, reopen)
 		if err != nil {
 			return err
 		}
 		c.Logf("%s: %d rollback points %v", name, o.Points, o.Seqs)
+		outs = append(outs, o)
+	}
+	// the directed "in-memory merge overtaken by a batch" schedule
+	for k := 0; k < c.Pick(2, 6); k++ {
+		wl := sx.Workload{Writers: 1, Safe: false, KVConfig: map[string]interface{}{"unsafe_batch": true, "numSnapshotsToKeep": 8},
+			Batches: []sx.BatchSpec{{B: 1, W: 1, Puts: []string{"a"}, Dels: []string{}}, {B: 2, W: 1, Puts: []string{"b"}, Dels: []string{}},
+				{B: 3, W: 1, Puts: []string{"c"}, Dels: []string{"a"}}}}
+		name := fmt.Sprintf("directed-memmerge-overtaken-%d", k)
+		o, err := runHistory(c, name, wl, 8, c.Seed*1000+int64(k), false, 0, false, 1)
+		if err != nil {
+			return err
+		}
+		c.Logf("%s: %d rollback points %v", name, o.Points, o.Seqs)
+		outs = append(outs, o)
+	}
+	// the directed "newest segment dropped, then restart" history
+	{
+		bs := func(b int, puts, dels []string) sx.BatchSpec { return sx.BatchSpec{B: b, W: 1, Puts: puts, Dels: dels} }
+		wl := sx.Workload{Writers: 1, Safe: true, KVConfig: map[string]interface{}{"numSnapshotsToKeep": 16,
+			"scorchMergePlanOptions": map[string]interface{}{"FloorSegmentSize": 1}}, // passive background planner
+			// segment ids: 2 {a,b}, 3 {c}, 4 {d}, (5: delete-only, no file); after the restart the root
+			// holds segment 2 only while the retained points still name the files 3 and 4
+			Batches: []sx.BatchSpec{bs(1, []string{"a", "b"}, []string{}), bs(2, []string{"c"}, []string{}), bs(3, []string{"d"}, []string{}),
+				bs(4, []string{}, []string{"c", "d"}),
+				bs(5, []string{"d"}, []string{}), bs(6, []string{"c"}, []string{}), bs(7, []string{"a"}, []string{}), bs(8, []string{}, []string{"b"})}}
+		name := "directed-newest-segment-dropped-then-restart"
+		o, err := runHistory(c, name, wl, 16, c.Seed*1000+77, false, 0, true, 2)
+		if err != nil {
+			return err
+		}
+		c.Logf("%s: %d rollback points %v", name, o.Points, o.Seqs)
+		if os.Getenv("VERIF_C13_DEBUG") != "" {
+			for _, r := range o.Records {
+				m := r.(map[string]any)
+				if m["ev"] == "Recovered" {
+					c.Logf("  rollback to %v -> opened=%v docs=%v seq=%v err=%v", m["point"], m["opened"], m["docs"], m["seq"], m["err"])
+				}
+			}
+		}
 		outs = append(outs, o)
 	}
 	runs := make([][]any, len(outs))
